@@ -39,6 +39,24 @@ type c13Case struct {
 	// "+channel-error" = after that a response on the channel under test
 	// carries an unusable packet size announcement (a channel-level error)
 	ErrState string `json:"error_queues,omitempty"`
+	// Cause: the contexts the case cancels (the caller's, the connection's
+	// parent) are cancelled WITH a cause (context.WithCancelCause); their
+	// Err() is context.Canceled all the same
+	Cause bool `json:"cancelled_with_cause,omitempty"`
+	// ClosedEarlier (conn-close, >= 2 further channels): the further channel
+	// with the lowest id was closed before Conn.Close is called
+	ClosedEarlier bool `json:"a_lower_channel_closed_earlier,omitempty"`
+}
+
+var errC13Cause = errors.New("application is shutting down")
+
+// c13Cancelable is context.WithCancel, or its with-a-cause variant.
+func c13Cancelable(cause bool) (context.Context, context.CancelFunc) {
+	if !cause {
+		return context.WithCancel(context.Background())
+	}
+	ctx, cancel := context.WithCancelCause(context.Background())
+	return ctx, func() { cancel(errC13Cause) }
 }
 
 const c13Cap = 3
@@ -56,7 +74,7 @@ func c13Setup(cs c13Case) (*c13Env, error) {
 	e := &c13Env{}
 	k := &kit{tr: xport.New(), info: newInfo(c13Cap, 0)}
 	var pctx context.Context
-	pctx, e.parent = context.WithCancel(context.Background())
+	pctx, e.parent = c13Cancelable(cs.Cause)
 	k.ctx, k.cancel = pctx, e.parent
 	conn, err := tds.NewConnTransport(pctx, k.info, k.tr)
 	if err != nil {
@@ -339,6 +357,12 @@ func c13Run(c *Ctx, cs c13Case) {
 	if cs.ErrState != "" {
 		stateClass += "+" + cs.ErrState
 	}
+	if cs.Cause {
+		stateClass += "+cancelled-with-cause"
+	}
+	if cs.ClosedEarlier {
+		stateClass += "+lower-channel-closed-earlier"
+	}
 	if cs.Fill > 0 || cs.TFail || cs.ErrState != "" {
 		r.Distinct(fmt.Sprintf("%+v", cs))
 	}
@@ -425,7 +449,7 @@ func c13Run(c *Ctx, cs c13Case) {
 
 	switch cs.Action {
 	case "next-cancelled-before", "until-cancelled-before":
-		ctx, cancel := context.WithCancel(context.Background())
+		ctx, cancel := c13Cancelable(cs.Cause)
 		cancel()
 		var pkg tds.Package
 		var err error
@@ -457,7 +481,7 @@ func c13Run(c *Ctx, cs c13Case) {
 		if cs.Fill == 0 || cs.Fill > c13Cap {
 			return
 		}
-		ctx, cancel := context.WithCancel(context.Background())
+		ctx, cancel := c13Cancelable(cs.Cause)
 		defer cancel()
 		if cs.Action == "until-drain-cancelled-before" {
 			cancel()
@@ -490,7 +514,7 @@ func c13Run(c *Ctx, cs c13Case) {
 		if cs.Fill != 0 {
 			return
 		}
-		ctx, cancel := context.WithCancel(context.Background())
+		ctx, cancel := c13Cancelable(cs.Cause)
 		defer cancel()
 		var err error
 		call := c13Go(func() { _, err = e.ch.NextPackage(ctx, true) })
@@ -537,7 +561,7 @@ func c13Run(c *Ctx, cs c13Case) {
 			fail("error-does-not-wrap-context-error", fmt.Sprintf("returned %v", err))
 		}
 	case "send-cancelled", "send-conn-cancelled":
-		ctx, cancel := context.WithCancel(context.Background())
+		ctx, cancel := c13Cancelable(cs.Cause)
 		if cs.Action == "send-cancelled" {
 			cancel()
 		} else {
@@ -566,7 +590,7 @@ func c13Run(c *Ctx, cs c13Case) {
 			r.Inconclusive("QueuePackage with a live context failed: %v", err)
 			return
 		}
-		ctx, cancel := context.WithCancel(context.Background())
+		ctx, cancel := c13Cancelable(cs.Cause)
 		defer cancel()
 		if cs.Action == "flush-cancelled-exact-multiple" {
 			cancel()
@@ -603,6 +627,16 @@ func c13Run(c *Ctx, cs c13Case) {
 		}
 	case "conn-close":
 		gid := waitReaderGID(k.tr)
+		if cs.ClosedEarlier {
+			if len(e.others) < 2 {
+				return
+			}
+			first := c13Go(func() { _ = e.others[0].Close() })
+			if !bounded(first, "Channel.Close of a further channel", 10*time.Second) {
+				return
+			}
+			r.Count("conn_close_after_an_earlier_channel_close", 1)
+		}
 		var err error
 		call := c13Go(func() { err = k.conn.Close() })
 		if !bounded(call, "Conn.Close", closeBudget) {
@@ -651,7 +685,7 @@ func c13Run(c *Ctx, cs c13Case) {
 			// Close, which then legally waits for its one-minute timeout
 			closeBudget = 75 * time.Second
 		}
-		rctx, rcancel := context.WithCancel(context.Background())
+		rctx, rcancel := c13Cancelable(cs.Cause)
 		defer rcancel()
 		var rerr error
 		recv := c13Go(func() { _, rerr = e.ch.NextPackage(rctx, true) })
@@ -716,7 +750,7 @@ func c13Run(c *Ctx, cs c13Case) {
 		// seeded stress: receiver, sender and feeder run while Close is called
 		rnd := rt.NewRand(c.Seed, fmt.Sprintf("c13/stress/%d/%d", cs.Fill, cs.Rep))
 		srnd := rt.NewRand(c.Seed, fmt.Sprintf("c13/stress/%d/%d/sender", cs.Fill, cs.Rep))
-		ctx, cancel := context.WithCancel(context.Background())
+		ctx, cancel := c13Cancelable(cs.Cause)
 		defer cancel()
 		var wg sync.WaitGroup
 		wg.Add(3)
@@ -833,6 +867,22 @@ func runC13(c *Ctx) {
 				for _, a := range []string{"close", "close-twice", "conn-close"} {
 					cases = append(cases, c13Case{Action: a, Fill: f, Logical: logical, Peer: "prompt", ErrState: es, Channels: f / 2})
 				}
+			}
+		}
+	}
+	// contexts cancelled with a cause
+	for _, f := range []int{0, 1, 4} {
+		for _, logical := range []bool{false, true} {
+			for _, a := range []string{"next-cancelled-before", "until-cancelled-before", "until-drain-cancelled-before", "until-drain-cancel-during", "next-cancel-during", "next-conn-cancel-during", "next-conn-cancelled-before", "send-cancelled", "send-conn-cancelled", "flush-cancelled-exact-multiple", "flush-conn-cancelled-exact-multiple"} {
+				cases = append(cases, c13Case{Action: a, Fill: f, Logical: logical, Peer: "prompt", Cause: true})
+			}
+		}
+	}
+	// Conn.Close after a channel with a lower id than others was closed
+	for _, f := range []int{0, 2, 4} {
+		for _, logical := range []bool{false, true} {
+			for _, n := range []int{2, 3} {
+				cases = append(cases, c13Case{Action: "conn-close", Fill: f, Logical: logical, Peer: "prompt", Channels: n, ClosedEarlier: true})
 			}
 		}
 	}
